@@ -34,11 +34,13 @@ type Engine struct {
 	repo         string
 	contractFile string
 	uninterpSpec map[string]bool
+	tableFacts   []*TableFact
 }
 
 type globalInfo struct {
 	lit      *ast.CompositeLit
 	mutated  bool
+	mutators map[string]bool // names of the functions that store into the global
 	initVal  func(fx *FuncCtx) Value
 	typ      types.Type
 	constArr *Term
@@ -115,6 +117,15 @@ func loadEngine(repo string, tags string, contractPath string) (*Engine, error) 
 	if err := e.loadContracts(cfile); err != nil {
 		return nil, err
 	}
+	for _, tf := range e.tableFacts {
+		tf.Info = &types.Info{Types: map[ast.Expr]types.TypeAndValue{}, Uses: map[*ast.Ident]types.Object{}, Defs: map[*ast.Ident]types.Object{},
+			Selections: map[*ast.SelectorExpr]*types.Selection{}, Instances: map[*ast.Ident]types.Instance{}}
+		expr, err := e.checkExpr(tf.Cl.Src, cfile.End(), []string{"c int"}, tf.Info, true)
+		if err != nil {
+			return nil, fmt.Errorf("tablefact %s: %v", tf.Global, err)
+		}
+		tf.Cl.Expr = expr
+	}
 	for _, ex := range e.externRaw {
 		info := &types.Info{Types: map[ast.Expr]types.TypeAndValue{}, Uses: map[*ast.Ident]types.Object{}, Defs: map[*ast.Ident]types.Object{},
 			Selections: map[*ast.SelectorExpr]*types.Selection{}, Instances: map[*ast.Ident]types.Instance{}}
@@ -168,6 +179,10 @@ func (e *Engine) scanGlobals() {
 				if g := rootGlobal(st.Addr); g != nil {
 					if gi := e.globals[g]; gi != nil {
 						gi.mutated = true
+						if gi.mutators == nil {
+							gi.mutators = map[string]bool{}
+						}
+						gi.mutators[fn.Name()] = true
 					}
 				}
 			}
@@ -229,9 +244,49 @@ func (e *Engine) globalObject(fx *FuncCtx, g *ssa.Global) *Object {
 	t := g.Type().(*types.Pointer).Elem()
 	o := fx.newObject(t, "global."+g.Name())
 	gi := e.globals[g]
-	if gi != nil && gi.lit != nil && !gi.mutated {
+	hasFact := false
+	for _, tf := range e.tableFacts {
+		if tf.Global == g.Name() {
+			hasFact = true
+		}
+	}
+	if gi != nil && gi.lit != nil && !gi.mutated && !hasFact {
 		if v, ok := e.litArray(fx, gi.lit, t); ok {
 			o.Init = v
+		}
+	}
+	if hasFact && gi != nil && !gi.mutated {
+		// the table is abstracted by its table facts (each checked for every entry of the literal)
+		o.Init = fx.Fresh(t, "table."+g.Name())
+	}
+	if o.Init == nil && gi != nil && gi.lit != nil && gi.mutated {
+		// written only by source-level init functions that are under contract: the run-time contents are
+		// what those contracts ensure, starting from the literal
+		onlyInit := true
+		var initName string
+		for m := range gi.mutators {
+			if !strings.HasPrefix(m, "init#") {
+				onlyInit = false
+			}
+			initName = m
+		}
+		if lit, ok := e.litArray(fx, gi.lit, t); ok && onlyInit && len(gi.mutators) == 1 {
+			if fx.fn.Name() == initName {
+				o.Init = lit
+			} else if ct := e.contractByKey(initName); ct != nil {
+				if _, err := e.prepareContract(ct); err == nil {
+					o.Init = fx.Fresh(t, "global."+g.Name())
+					fx.globalObjs[g] = o
+					now := &State{fx: fx, heap: map[*Object]Value{}, discover: &discoverCtx{}}
+					old := &State{fx: fx, heap: map[*Object]Value{o: lit}, discover: &discoverCtx{}}
+					env := &SpecEnv{fx: fx, st: now, old: old, vars: map[string]Value{}, info: ct.Info, ct: ct}
+					for i := range ct.Ensures {
+						fx.axiom(env.evalBool(ct.Ensures[i].Expr))
+					}
+					fx.warn("global %s: contents taken from the contract of %s applied to its literal", g.Name(), initName)
+					return o
+				}
+			}
 		}
 	}
 	if o.Init == nil {
@@ -241,7 +296,103 @@ func (e *Engine) globalObject(fx *FuncCtx, g *ssa.Global) *Object {
 		o.Init = fx.Fresh(t, "global."+g.Name())
 	}
 	fx.globalObjs[g] = o
+	for _, tf := range e.tableFacts {
+		if tf.Global != g.Name() {
+			continue
+		}
+		at, ok := t.Underlying().(*types.Array)
+		if !ok {
+			continue
+		}
+		// facts are instantiated at every read of the table (tableInstance); no quantified axiom is needed
+		if fx.factObjs == nil {
+			fx.factObjs = map[*Object][]*TableFact{}
+		}
+		fx.factObjs[o] = append(fx.factObjs[o], tf)
+		_ = at
+	}
 	return o
+}
+
+// tableInstance returns the table facts of object o instantiated at index idx (a BV64 term inside the array bounds).
+func (fx *FuncCtx) tableInstance(o *Object, idx Term) []Term {
+	var out []Term
+	for _, tf := range fx.factObjs[o] {
+		key := fmt.Sprintf("%p|%s|%s", o, tf.Cl.Name, idx.S)
+		if fx.factDone == nil {
+			fx.factDone = map[string]bool{}
+		}
+		if fx.factDone[key] || boundRe.MatchString(idx.S) {
+			continue
+		}
+		fx.factDone[key] = true
+		st := &State{fx: fx, heap: map[*Object]Value{}, discover: &discoverCtx{}}
+		env := &SpecEnv{fx: fx, st: st, vars: map[string]Value{"c": idx}, info: tf.Info}
+		out = append(out, env.evalBool(tf.Cl.Expr))
+	}
+	return out
+}
+
+// checkTableFacts evaluates every table fact for every index (the tables are literals: the check is exhaustive).
+func (e *Engine) checkTableFacts() {
+	for _, tf := range e.tableFacts {
+		g, _ := e.spkg.Members[tf.Global].(*ssa.Global)
+		if g == nil {
+			tf.Detail = "no such global"
+			continue
+		}
+		fx := &FuncCtx{eng: e, decls: map[string]Sort{}, warnings: map[string]bool{}, cutInfo: map[*ssa.Function]*CutInfo{}}
+		gi := e.globals[g]
+		t := g.Type().(*types.Pointer).Elem()
+		at, ok := t.Underlying().(*types.Array)
+		if gi == nil || gi.lit == nil || gi.mutated || !ok {
+			tf.Detail = "table is not an immutable array literal"
+			continue
+		}
+		lit, ok := e.litArray(fx, gi.lit, t)
+		if !ok {
+			tf.Detail = "literal not evaluable"
+			continue
+		}
+		o := fx.newObject(t, "global."+g.Name())
+		o.Init = lit
+		fx.globalObjs = map[*ssa.Global]*Object{g: o}
+		bad := -1
+		func() {
+			defer func() {
+				if r := recover(); r != nil {
+					tf.Detail = fmt.Sprint("evaluation failed: ", r)
+					bad = 0
+				}
+			}()
+			for c := int64(0); c < at.Len(); c++ {
+				st := &State{fx: fx, heap: map[*Object]Value{}, discover: &discoverCtx{}}
+				env := &SpecEnv{fx: fx, st: st, vars: map[string]Value{"c": i64(c)}, info: tf.Info}
+				r := concreteBool(env.evalBool(tf.Cl.Expr))
+				if r == nil || !*r {
+					bad = int(c)
+					tf.Detail = fmt.Sprintf("fails (or does not evaluate to a constant) at index %d", c)
+					return
+				}
+			}
+		}()
+		if bad < 0 {
+			tf.OK = true
+			tf.Detail = fmt.Sprintf("checked for all %d entries", at.Len())
+		}
+	}
+}
+
+// concreteBool folds a ground Bool term whose array reads are selects over store chains with constant indices.
+func concreteBool(t Term) *bool {
+	if t.BC != nil {
+		return t.BC
+	}
+	v := evalGround(parseSx(t.S))
+	if b, ok := v.(bool); ok {
+		return &b
+	}
+	return nil
 }
 
 // litArray evaluates an array composite literal of constants to an SMT array.
@@ -278,6 +429,15 @@ func (e *Engine) litArray(fx *FuncCtx, cl *ast.CompositeLit, t types.Type) (Valu
 		idx++
 	}
 	return ArrayVal{Arr: arr, ElemT: at.Elem()}, true
+}
+
+func (e *Engine) contractByKey(key string) *Contract {
+	for _, c := range e.contracts {
+		if c.FuncKey == key {
+			return c
+		}
+	}
+	return nil
 }
 
 func (e *Engine) summaryFor(fn *ssa.Function) *Contract {
